@@ -11,6 +11,7 @@ import (
 	"math"
 	"os"
 	"strconv"
+	"time"
 )
 
 type vReplayFile struct {
@@ -147,12 +148,12 @@ func vKnownFor(id string, c bool, asserts string) {
 	}
 }
 
-func vReach(id string)                  { vReached = append(vReached, id) }
+func vReach(id string)                    { vReached = append(vReached, id) }
 func vObserve(name string, v interface{}) {}
-func vSymbolic() bool                   { return false }
-func vBlockedGoroutines() int           { return -1 }
-func vYield()                           {}
-func vNote(s string)                    {}
+func vSymbolic() bool                     { return false }
+func vBlockedGoroutines() int             { return -1 }
+func vYield()                             { time.Sleep(time.Millisecond) }
+func vNote(s string)                      {}
 
 func vParam(name string, def int) int {
 	if s := os.Getenv("VERIF_PARAM_" + name); s != "" {
